@@ -909,6 +909,63 @@ pub fn shape_control(m: TMsg) -> TMsg {
     m
 }
 
+/// Images laid out for one kind of message under the flag word of the other: for all 32 combinations of the T, L, S, O
+/// and P bits (version 2, reserved bits clear) the header fields a *data* message has under those bits, the header
+/// fields a *control* message has whatever the bits say, and the control header followed by an Offset Size field and
+/// its pad — each in front of a valid AVP list (Message Type first) and in front of arbitrary octets, with a Length
+/// field (where there is one) that counts the whole.  What a flag bit means may not depend on a check that is off.
+pub fn cross_layouts() -> Vec<Vec<u8>> {
+    let r = content_rng("cross layouts", "x");
+    let mut res = vec![];
+    for bits in 0..32u16 {
+        let (t, l, s_, o, p) = (bits & 1 != 0, bits & 2 != 0, bits & 4 != 0, bits & 8 != 0, bits & 16 != 0);
+        let w: u16 = 0x0020 | if t { 0x0100 } else { 0 } | if l { 0x0200 } else { 0 } | if s_ { 0x1000 } else { 0 } | if o { 0x4000 } else { 0 } | if p { 0x8000 } else { 0 };
+        for layout in 0..3 {
+            for k in [0u16, 1, 2, 6, 12] {
+                if layout == 1 && k != 0 {
+                    continue;
+                }
+                for body_kind in 0..2 {
+                    let body: Vec<u8> = if body_kind == 0 {
+                        let mut b = mt_record(&r);
+                        for _ in 0..r.below(3) {
+                            b.extend(good_record(&r));
+                        }
+                        b
+                    } else {
+                        r.bytes(1 + r.below(24))
+                    };
+                    let mut v = w.to_be_bytes().to_vec();
+                    let len_at = if layout != 0 || l {
+                        v.extend_from_slice(&[0, 0]);
+                        Some(2usize)
+                    } else {
+                        None
+                    };
+                    v.extend_from_slice(&r.u16x().to_be_bytes());
+                    v.extend_from_slice(&r.u16x().to_be_bytes());
+                    if layout != 0 || s_ {
+                        v.extend_from_slice(&r.u16x().to_be_bytes());
+                        v.extend_from_slice(&r.u16x().to_be_bytes());
+                    }
+                    if (layout == 0 && o) || layout == 2 {
+                        v.extend_from_slice(&k.to_be_bytes());
+                        v.extend(if body_kind == 0 { vec![0u8; k as usize] } else { r.bytes(k as usize) });
+                    }
+                    v.extend_from_slice(&body);
+                    if let Some(at) = len_at {
+                        let n = v.len() as u16;
+                        v[at] = (n >> 8) as u8;
+                        v[at + 1] = n as u8;
+                    }
+                    res.push(v);
+                }
+            }
+        }
+    }
+    res
+}
+
 /// The `length` member of a control message value is not part of what is encoded (the encoder counts for itself); here
 /// it is made to look meaningful: the true size, the size plus what the writer already holds, what the writer holds,
 /// the size of the AVPs alone.
@@ -2225,6 +2282,9 @@ fn enc_stream(r: &Rng, out: &mut Out, n: usize, prefixes: bool, oversize: bool) 
         let mut totals: Vec<usize> = (65520usize..=65550).step_by(if n > 20000 { 1 } else { 3 }).collect();
         // the boundary itself, octet by octet, in every tier
         totals.extend(65531usize..=65540);
+        // and the sizes whose low 16 bits are all ones, all zero or one (a total narrowed to 16 bits, or saturated,
+        // before it is compared): 2·2^16 − 1 … 3·2^16 + 1
+        totals.extend([131070usize, 131071, 131072, 131073, 196607, 196608, 196609]);
         totals.sort();
         totals.dedup();
         for total in totals {
@@ -2378,6 +2438,17 @@ fn hide_stream(r: &Rng, out: &mut Out, n: usize, op: &str) {
                         out.push(format!("reveal Hidden({},{}) {} {}", attr, hex(&cipher), hex(&s_), hex(&rv)));
                     }
                 }
+            }
+        }
+    }
+    // long secrets (see reveal_stream): the 26 lengths up to each power of two 256 … 4096 and the two after
+    {
+        let lr = content_rng("long secrets", op);
+        for p in [256usize, 512, 1024, 2048, 4096] {
+            for sl in (p - 24)..=(p + 2) {
+                let kind = BYTE_KINDS[sl % 9];
+                let vl = 14 + sl % 40;
+                out.push(format!("{} {}({}) {} {} {} {}", op, kind, hex(&lr.bytes(vl)), hex(&lr.bytes(sl)), hex(&lr.bytes(4)), hex(&lr.bytes(sl % 7)), hex(&lr.bytes(16))));
             }
         }
     }
@@ -2640,6 +2711,25 @@ fn reveal_stream(r: &Rng, out: &mut Out, n: usize) {
             out.push(format!("reveal Hidden(7,{}) {} {}", hex(&hide_raw(7, &s, &rv, &plain)), hex(&s), hex(&rv)));
         }
     }
+    // long secrets: every length in the 26 octets up to 256, 512, 1024, 2048 and 4096 and the two after (scratch buffers
+    // sized by a power of two, or by the AVP limit), against values of two and three chunks, random and well-formed
+    {
+        let lr = content_rng("long secrets", "reveal");
+        for p in [256usize, 512, 1024, 2048, 4096] {
+            for sl in (p - 24)..=(p + 2) {
+                let s = lr.bytes(sl);
+                let rv = lr.bytes(4);
+                let chunks = 2 + sl % 2;
+                out.push(format!("reveal Hidden({},{}) {} {}", sl % 41, hex(&lr.bytes(16 * chunks)), hex(&s), hex(&rv)));
+                let payload = lr.bytes(16 * chunks - 2 - (sl % 3));
+                let mut plain = ((6 + payload.len()) as u16).to_be_bytes().to_vec();
+                plain.extend_from_slice(&payload);
+                plain.extend(lr.bytes(16 * chunks - plain.len()));
+                out.push(format!("reveal Hidden(7,{}) {} {}", hex(&hide_raw(7, &s, &rv, &plain)), hex(&s), hex(&rv)));
+            }
+        }
+        out.push(format!("reveal Hidden(7,{}) {} {}", hex(&lr.bytes(32)), hex(&lr.bytes(65535)), hex(&lr.bytes(4))));
+    }
     for i in 0..n {
         let t: u16 = if r.chance(4, 5) { *r.pick(&[0u16, 1, 5, 7, 8, 12, 13, 34, 35, 39, 20, 40]) } else { r.u16x() };
         let s = secret(r);
@@ -2831,6 +2921,9 @@ fn c14_stream(r: &Rng, out: &mut Out, thorough: bool) {
     }
     out.push("opts .".to_string());
     out.push("opts 13".to_string());
+    for img in cross_layouts() {
+        out.push(format!("opts {}", hex(&img)));
+    }
     let n = if thorough { 40000 } else { 4000 };
     for i in 0..n {
         let v = valid_image(r, false);
@@ -3013,6 +3106,32 @@ fn c16_stream(out: &mut Out, thorough: bool) {
                         let img = assemble(0x1320, 1, 2, 3, 4, &l);
                         out.push(format!("dec {} {}", if fl & 1 == 0 { "111" } else { "000" }, hex(&img)));
                     }
+                }
+            }
+        }
+    }
+    // an unassigned code is refused however many of them a message carries: 255, 256, 257, 511, 512, 513, 1024 records
+    // with an unassigned Proxy Authen Type / error type / (non-first) Message Type code, alone and with assigned ones
+    // between them (counts of refused records narrowed to eight bits)
+    let mt = record(1, 0, 0, &[0, 6]);
+    for count in [255usize, 256, 257, 511, 512, 513, 1024] {
+        for field in 0..3 {
+            for spaced in [false, true] {
+                let mut l: Vec<Vec<u8>> = vec![mt.clone()];
+                for i in 0..count {
+                    l.push(match field {
+                        0 => record(1, 0, 29, &[0, 6 + (i % 3) as u8]),
+                        1 => record(1, 0, 1, &[0, 1, 0, 9 + (i % 5) as u8]),
+                        _ => record(1, 0, 0, &[0, [5u8, 13, 17, 18][i % 4]]),
+                    });
+                    if spaced {
+                        l.push(record(1, 0, 29, &[0, 2]));
+                    }
+                }
+                let total: usize = 12 + l.iter().map(|x| x.len()).sum::<usize>();
+                if total <= 65535 {
+                    out.push(format!("dec 111 {}", hex(&assemble(0x1320, 1, 2, 3, 4, &l))));
+                    out.push(format!("avps {}", hex(&l.concat())));
                 }
             }
         }
@@ -3345,6 +3464,56 @@ fn c20_by_rule(r: &Rng, out: &mut Out) {
             let flags = (0x1320 & !0x00F0) | (x << 4);
             out.push(format!("sf {} {} InvalidVersion({})", o, hex(&assemble(flags, 1, 2, 3, 4, &base(r))), x));
             out.push(format!("sf {} {} InvalidVersion({})", o, hex(&[0x00, (x as u8) << 4, 0, 7, 0, 9, 0xaa]), x));
+        }
+    }
+    // an unusable AVP length (below the header size, or past the end of the body) as the single fault: last in a small
+    // body and last in a body that fills the message up to the 16-bit limit (offsets and sums near 2^16); and the
+    // other single faults at the tail of such a large body
+    let lr = content_rng("c20 large bodies", "sf");
+    for fill in [0usize, 1, 5, 30, 62, 63] {
+        let mut recs: Vec<Vec<u8>> = vec![mt_record(&lr)];
+        for _ in 0..fill {
+            recs.push(record(1, 0, 11, &lr.bytes(1017)));
+        }
+        let used: usize = 12 + recs.iter().map(|x| x.len()).sum::<usize>();
+        // what fits behind them
+        let room = 65535 - used;
+        for (ti, tail) in [40usize, 200, 1023, 40, 200].into_iter().enumerate() {
+            let tl = tail.min(room);
+            if tl < 8 {
+                continue;
+            }
+            // (the last two: the faulty record pushed to the very end of the 65535 octets by one more filler)
+            let mut recs = recs.clone();
+            if ti >= 3 {
+                let gap = room - tl;
+                if gap < 7 || gap > 1023 {
+                    continue;
+                }
+                recs.push(record(1, 0, 11, &lr.bytes(gap - 6)));
+            }
+            // a record of tl octets whose length field claims more than is there, or less than a header
+            for claim in [tl + 1, tl + 2, (tl + 300).min(1023), 1023, 5, 0] {
+                if (claim <= tl && claim >= 6) || claim > 1023 {
+                    continue;
+                }
+                let mut rec = record(1, 0, 11, &lr.bytes(tl - 6));
+                set_len(&mut rec, claim);
+                let mut rs = recs.clone();
+                rs.push(rec);
+                let want = if claim < 6 { claim } else { claim - 6 };
+                out.push(format!("sf 111 {} InvalidAVPLength({})", hex(&assemble(0x1320, 1, 2, 3, 4, &rs)), want));
+            }
+            let mut rs = recs.clone();
+            rs.push(record(1, 0, 77, &lr.bytes(tl - 6)));
+            out.push(format!("sf 111 {} UnknownAvp(77)", hex(&assemble(0x1320, 1, 2, 3, 4, &rs))));
+            let mut rs = recs.clone();
+            rs.push(record(1, 9, 11, &lr.bytes(tl - 6)));
+            out.push(format!("sf 111 {} UnsupportedVendorId(9)", hex(&assemble(0x1320, 1, 2, 3, 4, &rs))));
+            let mut rs = recs.clone();
+            rs.push(record(1, 0, 11, &lr.bytes(tl - 6 - 7)));
+            rs.push(record(1, 0, 5, &lr.bytes(1)));
+            out.push(format!("sf 111 {} IncompleteAVP(5)", hex(&assemble(0x1320, 1, 2, 3, 4, &rs))));
         }
     }
 }
@@ -3790,6 +3959,85 @@ fn with_neighbours(r: &Rng, lines: Vec<String>, rejected: bool) -> Vec<String> {
     out
 }
 
+/// Inputs of 2^32 octets and more (a width narrowed to 32 bits shows nowhere else): a message with a declared length in
+/// front of that many zero octets (`sfxbig`), a data message without Length field whose payload is all of them
+/// (`paybig`, the payload's length is reported), and reader operation sequences that cross the 2^32 mark (`rdbig`).
+fn big_writer_cases(r: &Rng, out: &mut Out, n: usize) {
+    const G: usize = 1 << 32;
+    for i in 0..n {
+        let size = match i % 4 {
+            0 => G,
+            1 => G + 1,
+            2 => G - 1,
+            _ => G + 65536 + r.below(1000),
+        };
+        match i % 3 {
+            0 => out.push(format!("encbig {} {}", size, gen_control(r, 4, false).render())),
+            1 => out.push(format!("encabig {} {}", size, gen_avp(r, false).render())),
+            _ => out.push(format!("encbig {} {}", size, gen_data(r, true).render())),
+        }
+    }
+}
+
+fn big_input_cases(r: &Rng, out: &mut Out, sfx: usize, pay: usize, rd: usize) {
+    const G: usize = 1 << 32;
+    for i in 0..sfx {
+        let m = if i % 2 == 0 {
+            gen_control(r, 4, false)
+        } else {
+            let mut d = gen_data(r, true);
+            if let TMsg::Data { len, nsnr, off, data, .. } = &mut d {
+                if len.is_none() {
+                    *len = Some((data_header_len(true, nsnr.is_some(), off.is_some()) + data.len()) as u16);
+                }
+            }
+            d
+        };
+        if let Some(img) = encode_msg(&m) {
+            let n = img.len();
+            let size = match i % 6 {
+                0 => G,
+                1 => G + 1,
+                2 => G + n - 1,
+                3 => G + n,
+                4 => G + n + 1,
+                _ => 2 * G + 7,
+            };
+            out.push(format!("sfxbig {} {} {}", if i % 3 == 0 { "000" } else { "111" }, hex(&img), size));
+        }
+    }
+    for i in 0..pay {
+        let dl = 1 + r.below(12);
+        let nsnr = if i % 2 == 0 { Some((r.u16x(), r.u16x())) } else { None };
+        let off = if i % 3 == 0 { Some(r.below(dl) as u16) } else { None };
+        let m = TMsg::Data { p: i % 4 == 0, len: None, tid: r.u16x(), sid: r.u16x(), nsnr, off, data: r.bytes(dl) };
+        if let Some(img) = encode_msg(&m) {
+            let n = img.len();
+            let size = match i % 5 {
+                0 => G,
+                1 => G + n,
+                2 => G + n - 1,
+                3 => G + 6,
+                _ => 2 * G,
+            };
+            out.push(format!("paybig {} {}", hex(&img), size));
+        }
+    }
+    for i in 0..rd {
+        let size = G + *r.pick(&[16usize, 17, 24, 8 + 4096, 16]);
+        let big = *r.pick(&[G, G - 1, G + 1, G + 8, G - 8]);
+        let ops: Vec<String> = match i % 6 {
+            0 => vec![format!("k{}", big), "u8".into(), "b4".into(), "u16".into()],
+            1 => vec!["u16".into(), format!("k{}", G - 2), "u32".into(), "b2".into(), "k1".into()],
+            2 => vec![format!("P{}", big), "u64".into(), format!("k{}", big.saturating_sub(16)), "u8".into(), "Q".into(), "u8".into(), "b3".into()],
+            3 => vec![format!("k{}", G / 2), format!("k{}", G / 2), "u8".into(), "s4".into(), "u8".into()],
+            4 => vec![format!("k{}", size - 8), "u64".into(), "b1".into()],
+            _ => vec![format!("k{}", size - 10), "u8".into(), "s8".into(), "u8".into()],
+        };
+        out.push(format!("rdbig {} {}", size, ops.join(",")));
+    }
+}
+
 pub fn generate(prop: &str, tier: &str, seed: u64) -> Vec<String> {
     let lines = generate_base(prop, tier, seed);
     match prop {
@@ -3808,6 +4056,9 @@ fn generate_base(prop: &str, tier: &str, seed: u64) -> Vec<String> {
         "C01" => {
             decode_stream(&r, &mut out, n(30000, 1800000), false);
             dictionary_stream(&r, &mut out, "dec");
+            for (i, img) in cross_layouts().iter().enumerate() {
+                out.push(format!("dec {} {}", ["000", "111", "010", "101"][i % 4], hex(img)));
+            }
         }
         "C02" => {
             decode_stream(&r, &mut out, n(25000, 1200000), true);
@@ -3816,11 +4067,15 @@ fn generate_base(prop: &str, tier: &str, seed: u64) -> Vec<String> {
         "C03" => {
             c03_stream(&r, &mut out, n(6000, 400000), thorough);
             dictionary_stream(&r, &mut out, "rt");
+            big_writer_cases(&Rng::new(seed, "bigw-C03"), &mut out, n(9, 30));
         }
         "C04" => c04_stream(&r, &mut out, n(20000, 1000000)),
         "C05" => {
             decode_stream(&r, &mut out, n(30000, 1500000), true);
             dictionary_stream(&r, &mut out, "dec");
+            for (i, img) in cross_layouts().iter().enumerate() {
+                out.push(format!("dec {} {}", ["000", "111", "010", "101", "110", "011"][i % 6], hex(img)));
+            }
             // all attribute numbers with a payload every kind accepts
             for x in 0..=65535u32 {
                 if thorough || x < 300 || x % 97 == 0 {
@@ -3829,6 +4084,7 @@ fn generate_base(prop: &str, tier: &str, seed: u64) -> Vec<String> {
             }
             utf8_stream(&r, &mut out, n(3000, 60000), thorough);
             text_stream(&r, &mut out, n(4000, 80000));
+            big_input_cases(&Rng::new(seed, "big-C05"), &mut out, n(12, 60), n(15, 60), 0);
         }
         "C06" => {
             for t in systematic_avps(true) {
@@ -3836,6 +4092,7 @@ fn generate_base(prop: &str, tier: &str, seed: u64) -> Vec<String> {
             }
             enc_stream(&r, &mut out, n(15000, 900000), false, false);
             dictionary_stream(&r, &mut out, "enc");
+            big_writer_cases(&Rng::new(seed, "bigw-C06"), &mut out, n(9, 30));
             // the specified octets do not depend on what the writer already holds
             enc_stream(&r, &mut out, n(3000, 60000), true, false);
             for m in MESSAGE_TYPES.iter() {
@@ -3883,11 +4140,13 @@ fn generate_base(prop: &str, tier: &str, seed: u64) -> Vec<String> {
             for p in PROXY_TYPES.iter() {
                 out.push(format!("enca . ProxyAuthenType({:?})", p));
             }
-            enc_stream(&r, &mut out, n(8000, 450000), true, true)
+            enc_stream(&r, &mut out, n(8000, 450000), true, true);
+            big_writer_cases(&Rng::new(seed, "bigw-C07"), &mut out, n(6, 30));
         }
         "C08" => {
             c08_stream(&r, &mut out, n(20000, 400000));
             dictionary_stream(&r, &mut out, "sfx");
+            big_input_cases(&Rng::new(seed, "big-C08"), &mut out, n(36, 120), n(6, 30), 0);
         }
         "C09" => {
             for (i, t) in systematic_avps(true).iter().enumerate() {
@@ -3896,6 +4155,7 @@ fn generate_base(prop: &str, tier: &str, seed: u64) -> Vec<String> {
                 }
             }
             enc_stream(&r, &mut out, n(12000, 250000), true, false);
+            big_writer_cases(&Rng::new(seed, "bigw-C09"), &mut out, n(12, 40));
             for _ in 0..n(2000, 40000) {
                 let k = 1 + r.below(8);
                 let mut before = 0usize;
@@ -3970,6 +4230,9 @@ fn generate_base(prop: &str, tier: &str, seed: u64) -> Vec<String> {
                 }
             }
             dictionary_stream(&r, &mut out, "fix");
+            for (i, img) in cross_layouts().iter().enumerate() {
+                out.push(format!("fix {} {}", if i % 2 == 0 { "000" } else { "010" }, hex(img)));
+            }
             // large accepted messages, each followed by ordinary ones (what a large message leaves behind)
             for t in big_controls(&r) {
                 if let Some(img) = encode_msg(&t) {
@@ -4008,7 +4271,10 @@ fn generate_base(prop: &str, tier: &str, seed: u64) -> Vec<String> {
         }
         "C16" => c16_stream(&mut out, thorough),
         "C17" => c17_stream(&r, &mut out, n(500, 10000)),
-        "C18" => c18_stream(&r, &mut out, n(15000, 900000)),
+        "C18" => {
+            c18_stream(&r, &mut out, n(15000, 900000));
+            big_input_cases(&Rng::new(seed, "big-C18"), &mut out, 0, 0, n(36, 240));
+        }
         "C19" => {
             c19_stream(&r, &mut out, n(6000, 100000));
             for t in big_controls(&r) {
